@@ -404,9 +404,10 @@ class Header(Field):
                 return 5
 
         else:
-            # old-format length
-            ##TODO: what if _llen needs to be (re)computed?
-            return self._llen
+            # old-format length: the width that was parsed, but never narrower than the value needs now
+            if self._llen == 0:
+                return 0
+            return max(self._llen, 1 if self.length < 256 else 2 if self.length < 65536 else 4)
 
     @llen.register(int)
     def llen_int(self, val):
